@@ -247,6 +247,121 @@ def context_case(_):
         if same != want_same:
             out["violations"].append(("context|identity|%s|%s" % (a, b), "contexts %s and %s: keys %s" % (a, b, "equal" if same else "differ"), {"pair": [a, b]}))
     out["outcomes"] = ["ctx:%s" % sorted(set(hs.values()))]
+    # context arguments are part of the identity of every call made beneath the call they were attached to
+    from .. import audit
+
+    setup_store()
+    for n, c in (("{k:1}", {"k": 1}), ("{k:2}", {"k": 2}), ("absent", None)):
+        audit.bodies_reset()
+        top = fx.ctop if c is None else fx.ctop.with_context_args(c)
+        top(1)
+        ran = [b[0] for b in audit.bodies()]
+        out["evaluations"] += 1
+        out["transitions"] += 3
+        out["traces"] += 1
+        if ran != ["ctop", "cmid", "cleaf"]:
+            out["violations"].append(("context|nested|shared-across-contexts", "ctop(1) under context %s ran bodies %s: a call beneath it was served "
+                                      "from a result computed under other context arguments" % (n, ran), {"context": n}))
+            break
+        want = models.ref_arg_hash({"a": 1}, c, fn_info)
+        for lvl, f in (("cmid", fx.cmid), ("cleaf", fx.cleaf)):
+            g = f if c is None else f.with_context_args(c)
+            mm = g.memento(1)
+            got = None if mm is None else mm.invocation_metadata.fn_reference_with_args.arg_hash
+            if got != want:
+                out["violations"].append(("context|nested|hash-differs|%s" % lvl, "%s(1) beneath ctop under context %s: key %s, documented %s"
+                                          % (lvl, n, got and got[:12], want[:12]), {"context": n}))
+                break
+    return out
+
+
+REDEF_SIGS = [["a", "b"], ["b", "a"], ["a", "b", "c"], ["c", "a", "b"], ["a"]]
+
+
+def _redef_child(root, sig_a, sig_b):
+    """Define r(<sig_a>), use it, re-define it as r(<sig_b>) in the running process (module rewritten + reload), then
+    every presentation of a full binding must give the documented key and hand the body the right values."""
+    import importlib
+    import sys
+
+    from .. import audit
+
+    audit.install()
+    setup_store()
+    pkg = os.path.join(root, "vfr")
+    os.makedirs(pkg)
+    open(os.path.join(pkg, "__init__.py"), "w").close()
+
+    def write(sig, version):
+        with open(os.path.join(pkg, "mod.py"), "w") as fh:
+            fh.write("import sys\nimport twosigma.memento as m\n\n\n@m.memento_function(cluster='vfc', version=%r)\ndef r(%s):\n"
+                     "    sys.audit('vf.body', 'r', {%s})\n    return 1\n" % (version, ", ".join(sig), ", ".join("%r: %s" % (p, p) for p in sig)))
+
+    sys.path.insert(0, root)
+    write(sig_a, "1")
+    importlib.invalidate_caches()
+    mod = importlib.import_module("vfr.mod")
+    vals = {"a": 10, "b": "bee", "c": 2.5}
+    res = []
+    for k, sig in enumerate((sig_a, sig_b)):
+        if k == 1:
+            os.utime(os.path.join(pkg, "mod.py"))
+            write(sig_b, "2")
+            importlib.invalidate_caches()
+            mod = importlib.reload(mod)
+        binding = {p: vals[p] for p in sig}
+        want = models.ref_arg_hash(binding, None, fn_info)
+        for combo in presentations(sig, set()):
+            f, pos, kw = apply_presentation(mod.r, combo, binding)
+            try:
+                fra = f.fn_reference().with_args(*pos, **kw)
+                h = fra.arg_hash
+            except Exception as e:
+                res.append((k, combo, "raised", repr(e)[:120]))
+                continue
+            if h != want:
+                res.append((k, combo, "hash-differs", "%s vs documented %s" % (h[:12], want[:12])))
+                continue
+            audit.bodies_reset()
+            mod.r.forget_all()
+            try:
+                f(*pos, **kw)
+            except Exception as e:
+                res.append((k, combo, "call-raised", repr(e)[:120]))
+                continue
+            got = [b[1] for b in audit.bodies() if b[0] == "r"]
+            if got != [binding]:
+                res.append((k, combo, "body-received", "%r, bound %r" % (got, binding)))
+        res.append((k, None, "ok", len(presentations(sig, set()))))
+    return res
+
+
+def redef_case(args):
+    from .. import farm
+
+    sig_a, sig_b = args
+    root = scratch_dir("c04r")
+    out = {"evaluations": 1, "states": 2, "transitions": 0, "traces": 1, "violations": [], "outcomes": []}
+    try:
+        res = farm.fork_call(_redef_child, root, sig_a, sig_b)
+    except farm.ChildFailed as e:
+        from ..core import HarnessError
+
+        raise HarnessError("re-definition child failed for %s -> %s: %s" % (sig_a, sig_b, e))
+    finally:
+        from ..core import rm
+
+        rm(root)
+    for k, combo, what, detail in res:
+        if what == "ok":
+            out["transitions"] += detail
+            continue
+        which = "first-definition" if k == 0 else "after-redefinition"
+        out["violations"].append(("redefine|%s|%s" % (which, what), "r(%s)%s, presentation %s: %s %s"
+                                  % (", ".join(sig_b if k else sig_a), " after having been r(%s) in this process" % ", ".join(sig_a) if k else "",
+                                     combo, what, detail), {"redefine": [sig_a, sig_b]}))
+        break
+    out["outcomes"].append("redef:%s->%s" % (sig_a, sig_b))
     return out
 
 
@@ -287,6 +402,9 @@ def run(ctx):
     chunks = [names[i:i + 8] for i in range(0, len(names), 8)]
     ctx.merge(pmap(pair_case, [(c, ctx.tier) for c in chunks], chunksize=1))
     ctx.merge([context_case(None)])
+    ctx.merge(pmap(redef_case, [(a, b) for a in REDEF_SIGS for b in REDEF_SIGS if a != b], chunksize=1))
+    ctx.rule += (" Plus: a 3-level call chain under each context (identity and documented key of the nested calls); every ordered pair "
+                 "of 5 signatures as definition / re-definition of one function in a running process, all presentations after each.")
     ctx.extra["presentations_3_params"] = len(presentations(["a", "b", "c"], set()))
     ctx.extra["values"] = len(allv)
     ctx.sample({"function": "f3", "binding": {"a": 1, "b": "a", "c": "1"}, "some_presentations": [list(map(list, c)) for c in presentations(["a", "b", "c"], set())[:4]]})
@@ -298,6 +416,8 @@ def replay(ctx, art):
         r = binding_case((a["function"], tuple(tuple(b) for b in a["binding"]), a.get("tier", "quick")))
     elif "pair" in a:
         r = pair_case(([a["pair"][0]], "quick"))
+    elif "redefine" in a:
+        r = redef_case((a["redefine"][0], a["redefine"][1]))
     else:
         r = context_case(None)
     for v in r["violations"]:
